@@ -710,7 +710,7 @@ func (context *layoutContext) makePage(rootBox bo.BlockLevelBoxITF, pageType uti
 		overflow := context.layoutFootnote(reportedFootnote)
 		if overflow && i != 0 {
 			context.reportFootnote(reportedFootnote)
-			context.reportedFootnotes = context.reportedFootnotes[i:]
+			context.reportedFootnotes = reportedFootnotes[i:]
 			break
 		}
 	}
